@@ -20,6 +20,7 @@ import Liftbridge.Driver.ProtoDrv
 import Liftbridge.Driver.CodecDrv
 import Liftbridge.Driver.CursorsDrv
 import Liftbridge.Driver.HWReaderDrv
+import Liftbridge.Driver.PipelineDrv
 
 namespace Liftbridge.Driver
 open Liftbridge
@@ -35,6 +36,7 @@ structure St where
   proto : ProtoSt := {}
   cursors : CursorsSt := {}
   hw : HWSt := {}
+  pipe : PipeSt := {}
 
 def showRes {α} (f : α → String) : Res α → String
   | .ok a => "ok " ++ f a
@@ -74,6 +76,7 @@ def step (st : St) (line : String) : St × String :=
   | "c03" :: rest => let (h, out) := hwStep st.hw rest; ({ st with hw := h }, out)
   | "c11" :: rest => let (c, out) := cursorsStep st.cursors rest; ({ st with cursors := c }, out)
   | "codec" :: rest => (st, codecStep rest)
+  | "c04p" :: rest => let (p, out) := pipeStep st.pipe rest; ({ st with pipe := p }, out)
   | "proto" :: rest => let (p, out) := protoStep st.proto rest; ({ st with proto := p }, out)
   | "c05" :: rest => let (r, out) := recStep st.recov rest; ({ st with recov := r }, out)
   | "c06" :: rest => let (m, out) := metaStep st.metadata rest; ({ st with metadata := m }, out)
